@@ -38,3 +38,37 @@ PROPS = {
         ],
     },
 }
+
+def rt_prop(technique, level_text, rule, extra_assume=(), level="exploration"):
+    return {"stages": [rt_stage], "engine": "rt", "technique": technique, "level": level,
+            "level_text": level_text, "rule": rule, "assumptions": COMMON_ASSUME + list(extra_assume)}
+
+
+PROPS["C04"] = rt_prop(
+    "runtime monitoring: call/handler/return event log over a loop-back transport (random re-chunking, Pending between chunks), "
+    "exactly-once + argument-equality + return-equality oracle; generated and macro clients, blocking and async, JSON and Smile",
+    "Held on every generated call: the handler event log contains exactly one event with arguments equal to the supplied ones and the "
+    "client returned the handler's value. Exploration over argument values for a fixed kitchen-sink definition (22 generated endpoints + 4 macro "
+    "endpoints); random definitions are covered by the lab half when built.",
+    "random requests against every endpoint of the generated SinkService and the macro HandService; distinct = (flavour, endpoint, outcome "
+    "class, argument feature set, header representability)",
+    ["the loop-back transport (harness/labrt) plays the HTTP stack: it routes on method + raw path segments and passes raw segments as PathParams",
+     "Conjure JSON text equality is used as value equality (justified by C01)"])
+
+PROPS["C05"] = rt_prop(
+    "runtime monitoring: document mutation (undeclared member injection at a struct position found by a model walk) + server-rejects-naming-field / "
+    "client-equals-uninjected oracle, JSON text and Smile DOM, all input sources",
+    "Held on every injection: server deserializers returned an error naming an injected member, client deserializers returned the value of the "
+    "uninjected document. Exploration over nesting contexts x payloads x positions.",
+    "1-3 undeclared members injected into one struct object of a random Node tree or of a struct placed directly below list/option/map/newtype/struct; "
+    "distinct = (format/side/source cell, container chain (last 3), payload kinds, position)",
+    ["plain serde_smile re-encodes the mutated Smile DOM faithfully"])
+
+PROPS["C11"] = rt_prop(
+    "runtime monitoring: structured header generator + reference decision model written from the property text, compared with the real runtime "
+    "(also through StdResponseSerializer's Content-Type)",
+    "Held on every generated Accept / Content-Type header and ordered registration: the chosen encoding was one the reference model allows. "
+    "Cases the property leaves open are counted as observed-only, never judged.",
+    "Accept headers rendered from 0-6 structured ranges (registered/other types, type/*, */*, q in thousandths, parameters, OWS, case, several header "
+    "lines, unparsable entries) x ordered subsets of 5 encodings; distinct = (deciding rule, #ranges, registration order, garbage?, params?)",
+    ["media types compare case-insensitively; unparsable list entries are ignored (both checked against the real parser by agreement on every case)"])
